@@ -84,6 +84,7 @@ struct Ctx
     Op last{};
     bool pre_empty = false, fill_phase = false, seen_pair_op = false, seen_rs_grow = false;
     std::string op_tag, obs;
+    bool free_step = false;
 };
 
 template <class LS, class TR>
@@ -99,6 +100,7 @@ struct Engine
     struct VM
     {
         bool present = false, moved = false;
+        bool unspec = false;  // contents unspecified (after a failed assignment): only validity is checked
         std::size_t cap = 0, budget = 0;
         std::vector<std::size_t> fixed;
         int arena = 0;
@@ -130,10 +132,11 @@ struct Engine
     bool seen_pair_op = false;    // history contains copy/move/swap
     bool seen_rs_grow = false;    // history contains a reserve beyond capacity
     bool faulted = false;
+    bool free_step = false;       // the last op was a set-up step that does not count against the depth bound
     std::string obs;              // observation digest source of the last inspect
     std::string op_tag;           // context of the last op that becomes part of a violation's discriminator
 
-    Ctx ctx() const { return Ctx{last, pre_empty, fill_phase, seen_pair_op, seen_rs_grow, op_tag, obs}; }
+    Ctx ctx() const { return Ctx{last, pre_empty, fill_phase, seen_pair_op, seen_rs_grow, op_tag, obs, free_step}; }
 
     // after an injected allocation failure propagated out of the last operation: the operands must still be
     // valid; operands whose contents are unspecified afterwards are only checked for readability
@@ -143,8 +146,7 @@ struct Engine
         {
             if (!m[t].present || m[t].moved) return;
             Vec& vv = *v[t];
-            for (std::size_t i = 0; i < vv.size() && i < 16; ++i) (void)LS::read(vv[i]);
-            m[t].moved = true;  // contents unspecified from here on
+            m[t].unspec = true;  // contents unspecified from here on
         };
         switch (last.k)
         {
@@ -301,6 +303,7 @@ struct Engine
         R().reset_counters();
         last = o;
         pre_empty = false;
+        free_step = (prm.mode == "elem" || prm.mode == "proxy") && (o.k == O_EB || o.k == O_NEW || o.k == O_DEF);
         compute_tag(o);
         try
         {
@@ -1353,6 +1356,21 @@ struct Engine
                 any_moved = true;
                 continue;
             }
+            if (m[t].unspec)
+            {
+                // only validity: size() elements are readable live objects
+                Vec& vv = *v[t];
+                for (std::size_t i = 0; i < vv.size() && i < 16; ++i)
+                {
+                    auto r = vv[i];
+                    (void)LS::read(r);
+                    auto ex = LS::extents(r);
+                    for (std::size_t k = 0; k < N; ++k)
+                        if (LS::tracked[k])
+                            for (std::size_t p = 0; p < ex[k].count && p < 16; ++p) held.insert(ex[k].addr + p * LS::sizes[k]);
+                }
+                continue;
+            }
             inspect_vec(t, held, ob);
         }
         for (int e = 0; e < 3; ++e)
@@ -1478,10 +1496,29 @@ struct Engine
             h.u64(b->elem_size);
             h.bytes(reinterpret_cast<const void*>(b->p), b->bytes);
         }
-        for (auto& kv : R().live)
         {
-            where(kv.first);
-            h.u64(static_cast<uint64_t>(kv.second.val));
+            // live objects in (block order, offset) order - never in absolute address order, which depends on
+            // where malloc happened to place the blocks
+            std::vector<std::tuple<uint64_t, uint64_t, int>> objs;
+            for (auto& kv : R().live)
+            {
+                uint64_t bi = 0xBBBB, off = 0;
+                for (std::size_t i = 0; i < lb.size(); ++i)
+                    if (kv.first >= lb[i]->p && kv.first < lb[i]->p + lb[i]->bytes)
+                    {
+                        bi = i;
+                        off = kv.first - lb[i]->p;
+                        break;
+                    }
+                objs.emplace_back(bi, off, kv.second.val);
+            }
+            std::sort(objs.begin(), objs.end());
+            for (auto& o : objs)
+            {
+                h.u64(std::get<0>(o));
+                h.u64(std::get<1>(o));
+                h.u64(static_cast<uint64_t>(std::get<2>(o)));
+            }
         }
         if (with_phase) h.u64(fill_phase);
         return h.hex();
